@@ -253,6 +253,35 @@ class Src:
                     depth -= 1
             if depth == 0 and s == "fn" and self.code[k][0] == "ident" and self.t(self.code[k + 1]) == name:
                 hits.append(k)
+        if len(hits) > 1:
+            # T1c: of several cfg-alternatives of one function the unix / linux one is the verified text
+            def excluded(k):
+                s0 = k
+                while s0 > 0 and self.t(self.code[s0 - 1]) in ("pub", "unsafe", "const", "async"):
+                    s0 -= 1
+                # walk back over directly preceding attributes `#[...]`
+                txt = ""
+                e = s0
+                while e >= 2 and self.t(self.code[e - 1]) == "]":
+                    d, b = 0, e - 1
+                    while b >= 0:
+                        t = self.t(self.code[b])
+                        if t == "]":
+                            d += 1
+                        elif t == "[":
+                            d -= 1
+                            if d == 0:
+                                break
+                        b -= 1
+                    if b < 1 or self.t(self.code[b - 1]) != "#":
+                        break
+                    txt += self.text[self.code[b - 1][1]:self.code[e - 1][2]]
+                    e = b - 1
+                flat = "".join(txt.split())
+                return ("cfg(windows)" in flat) or ("cfg(not(any(target_os=\"linux\"" in flat) or ("cfg(not(unix))" in flat)
+            kept = [k for k in hits if not excluded(k)]
+            if len(kept) == 1:
+                hits = kept
         if len(hits) != 1:
             raise ExtractError("fn %s in %r: %d matches in %s" % (name, impl_header, len(hits), self.path))
         k = hits[0]
